@@ -8,7 +8,7 @@
   functions (Lean accepts them); that the real `run_schedule` returns on a 1-thread pool is a
   run-time fact about rayon, exercised (with a timeout) by the correspondence run — PARTIAL.
 -/
-import BroodModel.Lemmas.Sched
+import BroodModel.Lemmas.SchedDyn
 
 namespace Brood
 open Static Generated
@@ -36,6 +36,22 @@ theorem C12_boundaries_justified (ts : List Task) :
     Justified (stages verifierTable mergerTable ts) :=
   stagesAux_justified ts []
 
+/-- **Run time: an independent next-stage task is started early, not made to wait**: if its
+component claims conflict with no running task on any archetype both match, the add-on check
+accepts them (the converse of the C08 safety direction; the claim map is the exact join of the
+running tasks' claims, so nothing is refused because of a stale or over-approximated claim). -/
+theorem C12_independent_add_on_accepted {n : Nat} {masks : List Mask} (hm : masks.Nodup) {cm : ClaimMap}
+    {ts : List Task} (me : MapExact n masks cm ts) (u : Task)
+    (h : ∀ k ∈ masks, u.matchesArch k = true → ∀ t ∈ ts, t.matchesArch k = true →
+      vecOk (u.claimVec n) (t.claimVec n) = true) :
+    ∃ cm', tryAddClaims claimTryMerge n masks u cm = some cm' ∧ MapExact n masks cm' (ts ++ [u]) := by
+  obtain ⟨e1, e2⟩ := tryAdd_exact hm me u
+  cases hc : tryAddClaims claimTryMerge n masks u cm with
+  | some cm' => exact ⟨cm', rfl, (e1 cm' hc).2⟩
+  | none =>
+    obtain ⟨k, hk, t, ht, h1, h2, h3⟩ := e2 hc
+    rw [h k hk h1 t ht h2] at h3; cases h3
+
 /-- Every task is staged exactly once and in the order written (no task lost or duplicated). -/
 theorem C12_stages_flatten (ts : List Task) : (stages verifierTable mergerTable ts).flatten = ts :=
   stages_flatten _ _ ts
@@ -53,3 +69,4 @@ end Brood
 #print axioms Brood.C12_independent_appended
 #print axioms Brood.C12_boundaries_justified
 #print axioms Brood.C12_stages_flatten
+#print axioms Brood.C12_independent_add_on_accepted
